@@ -42,7 +42,7 @@ CHECKS["C19"] = dict(
 CHECKS["C02"] = dict(
   level="exploration", engine="joborder",
   technique="exhaustive enumeration of owned nondeterminism: all job orders of each thread.Parallelize call, walk-order permutations, map-iteration seeds via a runtime overlay, parallelism grid, listing orders of modules/rules/plugins/paths, module directories, commit-cache histories; byte equality with the baseline execution",
-  text="Eight output functions (serialized image, lint text, breaking text, format+diff, file listing, dependency graph + digests + image with four pinned commits of one remote module, module digests, type-filtered images) are re-executed at every point of each nondeterminism dimension the harness owns: every execution order of the jobs of every thread.Parallelize call seen (all n! up to 4 jobs, else reverse/rotations/adjacent swaps; also at parallelism 2 where the check server chunks files), reverse/rotation/swap/24-permutation/single-call perturbations of every storage Walk, Go map iteration seeds 0..63 (settable through a build-time overlay of runtime/map.go), the GOMAXPROCS x thread-parallelism grid, and permutations of listed modules, rule ids and dependency pins. Every output must be byte-identical to the baseline.",
+  text="Fifteen API output functions (serialized image, lint text, breaking text, format+diff, exact error text of two failing format jobs, breaking v1 with overlapping ignore_only, file listing, dependency graph + digests + image with four pinned commits of one remote module, the same through 16 partially warm commit caches, dependency shapes with unnamed modules in all directory assignments, module digests, type-filtered images, lint with two in-process plugins, lint with a failing plugin, overlapping --path values in all 24 orders) and six in-process CLI commands are re-executed at every point of each nondeterminism dimension the harness owns: every execution order of the jobs of every thread.Parallelize call seen (all n! up to 4 jobs, else reverse/rotations/adjacent swaps; also at parallelism 2 where the check server chunks files), reverse/rotation/swap/24-permutation/single-call perturbations of every storage Walk, Go map iteration seeds 0..63 (settable through a build-time overlay of runtime/map.go), the GOMAXPROCS x thread-parallelism grid, and permutations of listed modules, rule ids and dependency pins. Every output must be byte-identical to the baseline.",
   note="Scheduling inside protocompile and inside the in-process bufplugin check server is not controlled; the map-seed sweep rotates all maps alike; multiClient.Check has a single delegate in these scenarios (no second plugin).",
   design="3/C02")
 
